@@ -626,9 +626,12 @@ def rule_u8(F):
 REVIEWED_PANICS = {
     # function suffix -> why no input reaches the explicit panic
     "<lir::value::IrValue as std::cmp::PartialEq>::eq": "the evaluator compares operands of one typed instruction; both sides have the instruction's type (C20.V6 decides the rows)",
-    "codegen::codegen": "declare_function of a trampoline named by the unique id of the runtime function cannot clash",
     "typechecker::scope::ScopeGraph::module_name": "parent_module always holds the index of a scope created as ScopeType::Module",
     "typechecker::scope::ScopeGraph::module_name::{closure#0}": "parent_module always holds the index of a scope created as ScopeType::Module",
+}
+REVIEWED_PANIC_PRODUCERS = {
+    # producer whose refused result the panic guards -> why no input reaches it
+    "Module::declare_function": "declare_function of a trampoline named by the unique id of the runtime function cannot clash",
 }
 NOT_EXPLICIT = {"ice", "todo", "unimplemented", "unreachable", "assert", "assert_eq", "assert_ne", "debug_assert", "debug_assert_eq", "debug_assert_ne"}
 
@@ -654,8 +657,26 @@ def rule_u9(F):
             if "panic" in m and not (set(m) & NOT_EXPLICIT):
                 lines.add(n.get("line", b.line))
         for k, ln in enumerate(sorted(lines)):
-            r.inst("%s panic #%d" % (p, k), {"fn": p, "line": ln, "reviewed": REVIEWED_PANICS.get(p)})
-            if p not in REVIEWED_PANICS:
+            reviewed = REVIEWED_PANICS.get(p)
+            if reviewed is None and b.mir:
+                # a site is reviewed for WHAT it guards, wherever the code lives: the panic is the refused side of a test on the result
+                # of a reviewed producer (`let Ok(id) = module.declare_function(unique name, ..) else { panic!() }`)
+                pbs = {bi for bi, blk in enumerate(b.blocks) if blk["term"].get("line") == ln and blk["term"]["k"] == "call"
+                       and ("panic" in (mir.callee_def(blk["term"]) or "") or "panic" in " ".join(blk["term"].get("mac") or []))}
+                for g in mir.gates(b):
+                    badr = set()
+                    for x in g["bad"]:
+                        badr |= mir.reachable_from(b, x, stop={g["bb"]})
+                    goodr = set()
+                    for x in g["good"]:
+                        goodr |= mir.reachable_from(b, x, stop={g["bb"]})     # without coming round to the test again (loops)
+                    if pbs and pbs <= badr and not (pbs & goodr):
+                        for c in g["chain"]:
+                            for prod, why in REVIEWED_PANIC_PRODUCERS.items():
+                                if str(c[2]).endswith(prod) or str(c[1]).endswith(prod):
+                                    reviewed = why
+            r.inst("%s panic #%d" % (p, k), {"fn": p, "line": ln, "reviewed": reviewed})
+            if reviewed is None:
                 r.bad(p, "explicit panic #%d" % k, relfile(b.file), ln,
                       "an explicit panic!() that is not an ice! is reachable on the compile path (%s): input the earlier passes accept makes compilation panic instead of producing a report"
                       % " -> ".join(hir.last(x) for x in cg.chain(parent, p)))
